@@ -160,9 +160,9 @@ props["C20"] = dict(title="In the REPL a failed line never affects later lines; 
 
 # ---------------- C07: union of panic obligations ----------------
 props["C07"] = dict(title="No program can make the interpreter terminate abnormally",
-  bounds="every panic obligation (index/slice bounds, nil dereference, failed type assertion, comparing uncomparable values, negative shift count, nil map write, integer division by zero, explicit panic) met on every path of every harness of every other property at its quick (thorough) bound",
+  bounds="every panic obligation (index/slice bounds, nil dereference, failed type assertion, comparing uncomparable values, negative shift count, nil map write, integer division by zero, explicit panic) met on every path of every harness of every other property at its quick bound (thorough: the thorough bound for C02, C09, C10, C14, C15, C17, C19, C20; the other properties' thorough checks evaluate their own panic obligations themselves — every check counts a panic as a violation)",
   assumptions=["unbounded user recursion ends in a host stack overflow: excluded by the property's domain", "fmt on a self-containing slice/map is modelled as what it is: unbounded recursion ending in a runtime abort (VH_cyclic)", "allocation failure and faults inside stubbed library code are outside"],
-  quick=[J(I,"VH_cyclic",w) for w in range(4)], thorough=[J(I,"VH_cyclic",w) for w in range(4)], panics_only=True, include=[p for p in ["C01","C02","C03","C04","C05","C06","C08","C09","C10","C11","C12","C14","C15","C16","C17","C18","C19","C20"]])
+  quick=[J(I,"VH_cyclic",w) for w in range(4)], thorough=[J(I,"VH_cyclic",w) for w in range(4)], panics_only=True, include=["C02","C09","C10","C14","C15","C17","C19","C20"], include_quick=["C01","C03","C04","C05","C06","C08","C11","C12","C13","C16","C18"])
 
 props["C02"]["quick"] += [J(I,"VH_powWhole",k) for k in range(6)] + [J(I,"VH_concatTwice",0), J(I,"VH_concatTwice",1)]
 props["C02"]["thorough"] += [J(I,"VH_powWhole",k) for k in range(6)] + [J(I,"VH_concatTwice",0), J(I,"VH_concatTwice",1)]
